@@ -389,7 +389,7 @@ func (g *Gen) opSend() {
 		fee = big.NewInt(1000000000000000)
 	}
 	tag := g.nextTag()
-	if g.lastSendTag != "" && g.rng.Intn(6) == 0 {
+	if g.lastSendTag != "" && g.rng.Intn(4) == 0 {
 		tag = g.lastSendTag // a second MsgSendToExternal of the same transaction: both transfers carry one tx hash
 	}
 	g.lastSendTag = tag
@@ -399,7 +399,7 @@ func (g *Gen) opSend() {
 func (g *Gen) opCancel() {
 	chain := g.pick([]string{"ethereum", "minter", "bsc"})
 	pool := g.env.Pool(g.env.ctx, chain)
-	if g.rng.Intn(3) == 0 {
+	if g.rng.Intn(2) == 0 {
 		// two transfers of one transaction (they share the hash the status is kept under): cancel both, one after the other
 		seen := map[string]*types.SendToExternal{}
 		for _, c := range []string{"ethereum", "minter", "bsc"} {
@@ -431,7 +431,7 @@ func (g *Gen) opCancel() {
 			}
 		}
 	}
-	if g.rng.Intn(10) == 0 {
+	if g.rng.Intn(5) == 0 {
 		// a chain id that is not a chain of the bridge but resembles one (prefix, other case)
 		chain = []string{chain[:len(chain)-1], chain[:3], strings.ToUpper(chain), chain + "2"}[g.rng.Intn(4)]
 	}
@@ -1295,7 +1295,7 @@ func (g *Gen) runOracle(nops int) {
 		{"x" + hex.EncodeToString([]byte(`aa","value":"5"},{"address":"bb`)) + "=7"},
 		{"x" + hex.EncodeToString([]byte("aa=5 bb")) + "=7"},
 	}
-	subsetNames := r.Intn(2) == 0
+	subsetNames := r.Intn(4) > 0
 	if r.Intn(2) == 0 {
 		names = append(names, "extra") // a name the bridge does not need: whoever reports it decides it among themselves
 	}
@@ -1978,7 +1978,7 @@ func (g *Gen) runStress(nops int) {
 				}
 				g.voteAll(chain, fmt.Sprintf("bex %s %d %d %d 0x%s %s %s", coin, n, bn, h, g.nextTag(), hostile(), g.pick(g.recips)))
 			}
-		case x < 52:
+		case x < 56:
 			// a burst of claims in one block: an execution of a pending batch reaches its quorum together with
 			// 66..100 further events, so that end-block tallies and applies them while the block's cache holds
 			// more dirty vote records than the store's iterator hand-over buffer (64)
@@ -2007,9 +2007,9 @@ func (g *Gen) runStress(nops int) {
 				g.nextEvt[chain]++
 				g.voteAll(chain, fmt.Sprintf("sth %d %s %d %s %s %d 0x%s", n, t.ext, 1+r.Intn(1000000), g.pick(g.recips), g.pick(g.accounts), g.eventHeight(chain), g.nextTag()))
 			}
-		case x < 57:
+		case x < 60:
 			g.opReqBatch()
-		case x < 61:
+		case x < 63:
 			g.opCancel()
 		default:
 			g.do("end")
